@@ -371,7 +371,9 @@ def rule_value_operators_only(ctx):
         if n.kind != "test" or not isinstance(n.ast, ast.If):
             return False
         t = norm(n.ast.test)
-        return ("%s.operator" % p) in t and "'MATCHES'" in t and "'LIKE'" in t
+        # ... and the four order operators: strings are ordered as TEXT, and the canonical text ('1.2.3.4' for '1.2.3.4/32',
+        # a lower-cased registry key) sorts differently from the text as written
+        return ("%s.operator" % p) in t and all(("'%s'" % o_) in t for o_ in ("MATCHES", "LIKE", "<", ">", "<=", ">="))
     bad = []
     for c in calls:
         sn = g.stmt_node_containing(c)
@@ -386,11 +388,11 @@ def rule_value_operators_only(ctx):
                 ok = True
         if not ok:
             bad.append(c)
-    run.check(not bad, R, key(fi.module.relpath, fi.qualname, "not-under-MATCHES-or-LIKE"),
+    run.check(not bad, R, key(fi.module.relpath, fi.qualname, "only-under-value-operators"),
               "special-value canonicalisation is applied whatever the operator: [ipv4-addr:value MATCHES '127.1'] is reported "
               "equivalent to MATCHES '127.0.0.1' (the first regex matches 127.1.2.3, the second does not); a registry-key regex "
               "'^hklm.\\\\S+$' is lower-cased into '^hklm.\\\\s+$'", file=fi.module.relpath, line=fi.node.lineno, function=fi.qualname,
-              expected="if ast.operator in ('MATCHES', 'LIKE'): return ast, False   (before the dispatch)", found=[short(c) for c in bad])
+              expected="if ast.operator in ('MATCHES', 'LIKE', '<', '>', '<=', '>='): return ast, False   (before the dispatch)", found=[short(c) for c in bad])
 
 
 COMPARATORS = [
